@@ -34,7 +34,15 @@ func (T7) M1() {}
 // Err is the dynamic type of every non-nil error / TerminalError the harness produces.
 type Err struct{ Tag uint64 }
 
-func (e *Err) Error() string { return "E" + strconv.FormatUint(e.Tag, 10) }
+func (e *Err) Error() string {
+	if e == nil {
+		return "E(typed nil)"
+	}
+	return "E" + strconv.FormatUint(e.Tag, 10)
+}
+
+// typedNilTag stands for an error value that is a nil *Err inside a non-nil interface: as an error it is NOT nil
+const typedNilTag = 9999999
 
 const (
 	cI0    = 10
@@ -161,7 +169,9 @@ func mkValue(declared int, v Val) reflect.Value {
 		}
 		// (a zero value of a concrete type handed on as an interface is not the nil interface)
 		var inner reflect.Value
-		if v.Ty == cError {
+		if v.Ty == cError && v.Tag == typedNilTag {
+			inner = reflect.ValueOf((*Err)(nil))
+		} else if v.Ty == cError {
 			inner = reflect.ValueOf(&Err{Tag: v.Tag})
 		} else {
 			inner = reflect.New(codeType[v.Ty]).Elem()
@@ -198,7 +208,7 @@ func readValue(declared reflect.Type, x reflect.Value) Val {
 	}
 	if x.Type() == tErrP {
 		if x.IsNil() {
-			return Val{codeOf(declared), 0}
+			return Val{cError, typedNilTag}
 		}
 		return Val{cError, x.Interface().(*Err).Tag}
 	}
